@@ -539,7 +539,7 @@ pub fn run(run: &Run) {
     run.trust("refcodec and wire::validate (independent decoding of everything recorded)");
     prop_search(
         run,
-        Search { check: "wire-format", cases: run.tier.pick(1500, 12000), workers: 8, max_shrink_iters: 120 },
+        Search { check: "wire-format", cases: run.tier.pick(1500, 50000), workers: 8, max_shrink_iters: 120 },
         case_strategy,
         |c| judge(|| exec(c), false, "C16:hang"),
         |c| serde_json::to_value(c).unwrap(),
